@@ -39,7 +39,7 @@ def main(spec=None, out=None):
     kw = {}
     if opts.get("compress"): kw["compress"] = opts["compress"]
     if opts.get("mmap"): kw["mmap_mode"] = opts["mmap"]
-    mem = joblib.Memory(spec["root"], verbose=0, **kw)
+    mem = joblib.Memory(spec["root"], verbose=int(opts.get("verbose", 0)), **kw)     # (progress messages go to stdout: non-JSON lines are skipped by the reader of the output)
     ckw = {}
     if opts.get("expires") is not None:
         ckw["cache_validation_callback"] = joblib.expires_after(seconds=opts["expires"])
@@ -121,6 +121,9 @@ def zygote():
                     else: os.environ[k] = v
                 efd = os.open(job["out"] + ".stderr", os.O_WRONLY | os.O_CREAT | os.O_TRUNC, 0o644)
                 os.dup2(efd, 2)          # joblib's own warnings / tracebacks of tolerated load errors
+                ofd = os.open(job["out"] + ".stdout", os.O_WRONLY | os.O_CREAT | os.O_TRUNC, 0o644)
+                os.dup2(ofd, 1)          # messages of a verbose Memory: never into the pipe of the fork server's protocol
+                sys.stdout = os.fdopen(ofd, "w")
                 with open(job["out"], "w") as fh:
                     try:
                         main(job["spec"], fh)
